@@ -263,6 +263,33 @@ func c26ConcLookup(name string) e2.RunFn {
 			x.Violation = fmt.Sprintf("%s: A=%s B=%s; vs serial: %s", what, resA, resB, diff)
 			return x
 		}
+		// a single successful publish on a hostname without earlier routes: slots 1..k name the
+		// distinct requested servers in first-seen order (the serial reference shares the code,
+		// so this clause is checked against the statement directly)
+		if sc.init == "fresh" {
+			for i, c := range sc.calls {
+				other := sc.calls[1-i]
+				if c.kind != "pub" || []string{resA, resB}[i] != "ok" || (other.host == c.host && []string{resA, resB}[1-i] == "ok") {
+					continue
+				}
+				idx, _ := c26WantServers(c.servers)
+				cl := w.sh.clients[c.who]
+				var want []string
+				for k, sv := range idx {
+					want = append(want, fmt.Sprintf("S %s=%s", tun.RoutingKey(c.host, k+1), routeSig(&protocol.TunnelRoute{ClientDestination: cl.verified, ChordDestination: c26ServerChord(sv), TunnelDestination: c26ServerTun(sv), Hostname: c.host})))
+				}
+				var got []string
+				for _, ln := range strings.Split(final, "\n") {
+					if strings.HasPrefix(ln, "S /tunnel/bundle/"+c.host+"/") {
+						got = append(got, ln)
+					}
+				}
+				if strings.Join(got, "\n") != strings.Join(want, "\n") {
+					x.Violation = fmt.Sprintf("routes-are-not-the-distinct-requested-servers-in-slots-1..k: got %v want %v", got, want)
+					return x
+				}
+			}
+		}
 		// explicit clauses of the statement (implied by the reference, spelled out)
 		for i, c := range sc.calls {
 			r := []string{resA, resB}[i]
@@ -310,6 +337,7 @@ func c26ConcScenarios(thorough bool) []string {
 	}
 	if thorough {
 		s = append(s,
+			"fresh|X.pub(hx,121)|X.rel(hx)",
 			"routed|X.pub(hx,1)|X.rel(hx)",
 			"routed|X.pub(hx,1)|X.unpub(hx)",
 			"fresh|X.pub(hx,12)|X.rel(hx)",
@@ -328,7 +356,11 @@ const ccPromiseSHA = "d0a7950d956bc9a22d8c96913f21fba4fb3924f486533af724ed7c6158
 
 func c26Conc(c *report.Check) {
 	// the group builds util/promise with inpkg/promise/promise_vblock.go; only valid for this source
-	if b, err := os.ReadFile("/repo/util/promise/promise.go"); err != nil || fmt.Sprintf("%x", sha256.Sum256(b)) != ccPromiseSHA {
+	repo := os.Getenv("VERIF_REPO")
+	if repo == "" {
+		repo = "/repo"
+	}
+	if b, err := os.ReadFile(repo + "/util/promise/promise.go"); err != nil || fmt.Sprintf("%x", sha256.Sum256(b)) != ccPromiseSHA {
 		c.Set("conc_skipped", "util/promise/promise.go differs from the version the scheduler-aware rendering was derived from; scheduler leg not run")
 		return
 	}
